@@ -151,7 +151,8 @@ Proof.
   destruct (last s 0 =? 82).
   - unfold mk_tdelta. match goal with |- context [if ?c then _ else _] => replace c with true; [ok_leaf|symmetry; lia] end.
   - apply Hfield; [cbn; lia|]. intros tenth Ht. apply Hfield; [cbn; lia|]. intros nn Hn.
-    cbv zeta. match goal with |- context [if negb ?c then _ else _] => replace c with true end.
+    cbv zeta. destruct (1440 <=? Z.abs (nn * 15)); [ok_leaf|].
+    match goal with |- context [if negb ?c then _ else _] => replace c with true end.
     + cbn [negb]. destruct (valid_datetime _ _ _ _ _ _ _); ok_leaf.
     + symmetry. destruct (list_eqb _ _); lia.
 Qed.
